@@ -41,7 +41,8 @@ def plan(tier, seed):
         'rule': 'every ordered, non-deleting, non-erasing rule in canonical form with rank <= %d and <= %d variables '
                 '(%d rules) as a one-rule grammar x {no reordering, optimal} x {deterministic} U {Markov v,h in '
                 '0..3 x nofanout on/off}%s; plus every grammar extracted from single trees of all shapes n <= N '
-                '(deterministic: un-binarized by the reference). non-trivial = distinct (rule, mode) cases of '
+                'with unique and with all-equal labels (so that one production has several linearizations), deterministic and '
+                'Markov modes: every rule recoverable by composition; deterministic: un-binarized by the reference. non-trivial = distinct (rule, mode) cases of '
                 'rank > 2' % (R, V, lins, '' if tier != 'quick' else ' (quick: Markov grid v,h in {0,1,3} only for rank <= 4)'),
         'bound': 'rank <= %d, variables <= %d' % (R, V),
         'exhaustive': True,
@@ -131,6 +132,14 @@ def check_extracted(mtj, cfg):
     eg, _ = lcfrs.ref_extract([mt])
     try:
         result = run_binarize({f: {l: dict(v) for l, v in lins.items()} for f, lins in eg.items()}, cfg)
+        lost = check_chains(eg, result, cfg)
+        if lost:
+            out.append({'kind': 'yield-changed', 'where': 'grammar.binarize', 'case': case,
+                        'detail': 'no chain of the binarized grammar composes to: %s [tree %s, mode %r]'
+                                  % ('; '.join(lost[:3]), model.mt_str(mt.root, mt.toks), cfg),
+                        'what': 'binarize: a rule of an extracted grammar is not recoverable by composition'})
+        if cfg['markov'] is not None:
+            return out
         back = lcfrs.unbinarize(result, is_bin)
     except Exception as e:
         out.append({'kind': 'exception', 'where': 'grammar.binarize', 'case': case,
@@ -160,6 +169,38 @@ def check_extracted(mtj, cfg):
     return out
 
 
+def equiv_up_to_labels(func, lin, labels, composed, identity_only):
+    """Is the chain result (labels in chain order, composed lin over chain positions) the original rule
+    (func, lin) up to a label-preserving permutation of the RHS?"""
+    n = len(labels)
+    if sorted(labels) != sorted(func[1:]):
+        return False
+    perms = [tuple(range(n))] if identity_only else itertools.permutations(range(n))
+    for pi in perms:
+        if any(labels[k] != func[1 + pi[k]] for k in range(n)):
+            continue
+        mapped = tuple(tuple((pi[i], j) for (i, j) in arg) for arg in composed)
+        if mapped == lin:
+            return True
+    return False
+
+
+def check_chains(eg, result, cfg):
+    """Every original rule of rank > 2 must be the composition of some chain of the result."""
+    probs = []
+    for func, lins in eg.items():
+        for lin in lins:
+            if len(func) - 1 <= 2:
+                ok = any(f[0] == func[0] and equiv_up_to_labels(func, lin, f[1:], l, cfg['reordering'] == 'none')
+                         for f, ls in result.items() if len(f) == len(func) for l in ls)
+            else:
+                ok = any(equiv_up_to_labels(func, lin, labels, composed, cfg['reordering'] == 'none')
+                         for labels, composed in lcfrs.find_chains(result, func[0], func[1:], is_bin))
+            if not ok:
+                probs.append('%s with linearization %r' % (' '.join(func), lin))
+    return probs
+
+
 def _labelled(lin, labels):
     """Position-independent rendering of a lin (only meaningful when labels are distinct)."""
     return [(ai, pi, labels[i], j) for ai, arg in enumerate(lin) for pi, (i, j) in enumerate(arg)]
@@ -176,11 +217,15 @@ def run_chunk(chunk):
     res = Result()
     with quiet():
         if chunk['kind'] == 'extracted':
-            cfgs = [{'reordering': 'none', 'markov': None}, {'reordering': 'optimal', 'markov': None}]
+            cfgs = [{'reordering': 'none', 'markov': None}, {'reordering': 'optimal', 'markov': None},
+                    {'reordering': 'none', 'markov': {'v': 1, 'h': 1, 'nofanout': False}},
+                    {'reordering': 'optimal', 'markov': {'v': 1, 'h': 2, 'nofanout': False}},
+                    {'reordering': 'optimal', 'markov': {'v': 0, 'h': 1, 'nofanout': True}}]
             mt = None
             for n in range(1, chunk['n'] + 1):
                 for sh, _ in model.shapes_with_unary(n, 1):
-                    mt = model.simple_mt(sh)
+                  for labels in ('path', 'A'):
+                    mt = model.simple_mt(sh, labels=labels, pos=(['x'] * n if labels == 'A' else None))
                     for cfg in cfgs:
                         vs = check_extracted(mt.to_json(), cfg)
                         res.evals += 1
